@@ -886,6 +886,83 @@ theorem C10_restart_dsl_yields (S : C11.Sem σ V E) (useCache : Bool) (prm : Par
 end dslR
 
 end restart
+
+/-! ### non-vacuity and findings (restart) -/
+namespace ExampleR
+open Example (spec exs)
+
+/-- enumerators are numbered: 0 ↦ the stream `1, var0, var0+1, 1/var0, 1+var0`; every restarted
+    enumerator n+1 ↦ `1+var0, 1, var0+1`; enumerator 99 is empty -/
+def stream : Nat → Nat → Option Nat
+  | 0, i => [0, 1, 2, 3, 4][i]?
+  | 99, _ => none
+  | _, i => [4, 0, 2][i]?
+
+/-- restart when two new data items were saved; the restarted enumerator is the next number -/
+def prm (fixNext fixStats : Bool) : Params Nat Nat :=
+  ⟨stream, fun s => decide (s.data.length - s.lastSize > 1), fun en _ => en + 1, fixNext, fixStats⟩
+
+def run (fx fs : Bool) (k : Kind) (s : RSolver Nat) (en : Nat) (dl as : List Bool) :=
+  solveR (prm fx fs) (test k (pureEv spec) exs) 50 s () en dl as
+
+-- scores under the naive test: program 0 passes one example of two (saved), 1 none, 2 both (a solution, saved
+-- after it was refused): the criterion fires after program 2; the search restarts on enumerator 1
+example : segProgs (prm false false) .naive spec exs 7 RSolver.init 0 = [0, 1, 2, 4, 0, 4, 0] := by decide
+example : (segOf (prm false false) .naive spec exs 7 RSolver.init 0).map (fun e => (e.en, e.pos)) =
+    [(0, 0), (0, 1), (0, 2), (1, 0), (1, 1), (2, 0), (2, 1)] := by decide
+-- refuse the first solution, refuse the second (found after the restart), accept the third: rank 6, two restarts
+example : (run false false .naive RSolver.init 0 [] [false, false, true]).yielded = [2, 4, 4] := by decide
+example : (run false false .naive RSolver.init 0 [] [false, false, true]).status = .finished .accepted := by decide
+example : (run false false .naive RSolver.init 0 [] [false, false, true]).solver.self.statsPrograms = 6 := by decide
+example : (run false false .naive RSolver.init 0 [] [false, false, true]).solver.statsRestarts = 2 := by decide
+example : (run false false .naive RSolver.init 0 [] [false, false, true]).solver.data.map (·.1) = [0, 2, 4, 0] := by decide
+-- the cut-off test gives program 0 the score 1/2 as well, program 1 the score 0
+example : (run false false .cutoff RSolver.init 0 [] [false]).yielded = [2, 4] := by decide
+-- the caller stops answering; deadline before the fifth program
+example : (run false false .naive RSolver.init 0 [] []).status = .suspended := by decide
+example : (run false false .naive RSolver.init 0 [false, false, false, false, true] [false, false]).status
+    = .finished .timeout := by decide
+-- a criterion that fires for ever: the fuel runs out (the real solver does not return)
+example : (solveR (prm false false) (test .naive (pureEv spec) exs) 50 RSolver.init () 0 [] (List.replicate 60 false)).status
+    = .outOfFuel := by decide
+-- hypotheses of C10_restart_resume
+example : segProgs (prm false false) .naive spec exs 7 RSolver.init 0 = [0, 1] ++ 2 :: [4, 0, 4, 0] ∧
+    (∀ q ∈ [0, 1], verdict .naive spec exs q = .ok false) ∧ verdict .naive spec exs 2 = .ok true :=
+  ⟨by decide, by intro q hq; simp at hq; rcases hq with rfl | rfl <;> rfl, rfl⟩
+-- hypothesis of C10_restart_never_skips
+example : [0, 1].length < (run false false .naive RSolver.init 0 [] [false]).solver.self.programs := by decide
+-- hypothesis of C10_restart_no_restart: a criterion that never fires, a list as stream
+example : ∀ i, stream 0 i = [0, 1, 2, 3, 4][i]? := fun _ => rfl
+
+/-- **finding C10-F2** (as the code is): an enumeration that is exhausted without an accepted
+    solution ends the generator with `StopIteration` raised inside it — a RuntimeError for the caller —
+    where the plain solver ends normally; with the repair `next(gen, None)` it ends normally. -/
+theorem finding_C10_restart_stop_iteration :
+    (solveR (prm false false) (test .naive (pureEv spec) exs) 50 RSolver.init () 99 [] []).status
+      = .finished .stopIteration ∧
+    (solve (test .naive (pureEv spec) exs) Solver.init () [] [] []).status = .finished .exhausted ∧
+    (solveR (prm true false) (test .naive (pureEv spec) exs) 50 RSolver.init () 99 [] []).status
+      = .finished .exhausted ∧
+    -- … also after programs were tested and a solution refused: enumerator 3 serves `1+var0, 1, var0+1` once
+    (solveR ⟨stream, fun _ => false, fun en _ => en, false, false⟩ (test .naive (pureEv spec) exs) 50
+      RSolver.init () 3 [] [false, false]).status = .finished .stopIteration ∧
+    (solveR ⟨stream, fun _ => false, fun en _ => en, false, false⟩ (test .naive (pureEv spec) exs) 50
+      RSolver.init () 3 [] [false, false]).yielded = [4, 2] := by decide
+
+/-- **finding C10-F3** (as the code is): a second task on the same restart solver.  The first task
+    accepts at rank 3, the second at rank 1: `get_stats("programs")` is 1 afterwards — it *fell* by 2
+    instead of growing by 1 — while 'restarts' and the plain solver's 'programs' accumulate; and
+    `_stats["time"]` holds three summands after two tasks.  With the repair: 3 + 1 and two summands. -/
+theorem finding_C10_restart_stats_not_cumulative :
+    let s1 := (run false false .naive RSolver.init 0 [] [true]).solver
+    let s2 := (run false false .naive s1 3 [] [true]).solver
+    s1.self.statsPrograms = 3 ∧ s2.self.statsPrograms = 1 ∧ s2.self.statsCloses = 3 ∧
+    ¬ (s1.self.statsPrograms = s1.sub.statsPrograms) ∧
+    (let t1 := (run false true .naive RSolver.init 0 [] [true]).solver
+     let t2 := (run false true .naive t1 3 [] [true]).solver
+     t2.self.statsPrograms = 3 + 1 ∧ t2.self.statsCloses = 2) := by decide
+
+end ExampleR
 --RESTART-END
 
 end PS.C10
